@@ -360,6 +360,10 @@ def check(ctx):
     ctx.floor("R4", "finally blocks in coroutines", n_finally, 1)
 
     # ---- R5 observers -------------------------------------------------------
+    # unwatch_all is the detach step of both teardowns: on the real Observable (interpreted: C03.R5's scenarios) it leaves
+    # nobody registered - a loop that removes while it iterates leaves every second observer behind
+    from .c03 import observers as _observers10
+    _observers10(ctx.borrowed("R5", "C03", key_contains="unwatch-all"), repo)
     sd = repo.method("GeckoAsyncSpa", "disconnect")
     gsd = cfg_of(sd)
     def always(g, nodes):
@@ -419,25 +423,7 @@ def check(ctx):
     # a mutable default (`queue=AsyncPeekableQueue()`, `handlers=[]`) is evaluated once, at definition: every object
     # built without that argument shares it, so datagrams / handlers / tasks of an abandoned connection reach the next
     ctx.rule("R8", "per-connection state: no constructor keeps a mutable default argument (a list/dict/set display or a constructed object evaluated once at definition) in an instance attribute")
-    n_init = 0
-    for fi in repo.all_functions():
-        if fi.name != "__init__" or fi.cls is None:
-            continue
-        n_init += 1
-        a = fi.node.args
-        pos = a.posonlyargs + a.args
-        pairs = list(zip(pos[len(pos) - len(a.defaults):], a.defaults)) + [(p_, d_) for p_, d_ in zip(a.kwonlyargs, a.kw_defaults) if d_ is not None]
-        for p_, d_ in pairs:
-            mutable = isinstance(d_, (ast.List, ast.Dict, ast.Set, ast.ListComp, ast.DictComp, ast.SetComp)) or \
-                (isinstance(d_, ast.Call) and not (isinstance(d_.func, ast.Name) and d_.func.id in ("tuple", "frozenset", "int", "str", "bytes", "float", "bool", "object")))
-            if not mutable:
-                continue
-            kept = [n for n in ast.walk(fi.node) if isinstance(n, (ast.Assign, ast.AnnAssign)) and isinstance(getattr(n, "value", None), ast.Name) and n.value.id == p_.arg
-                    and any(isinstance(t, ast.Attribute) and isinstance(t.value, ast.Name) and t.value.id == "self" for t in (n.targets if isinstance(n, ast.Assign) else [n.target]))]
-            ctx.ob("R8", f"{fi.qual}::{p_.arg}::no-shared-default", not kept,
-                   f"{fi.qual}: parameter `{p_.arg}` defaults to `{ast.unparse(d_)}`, evaluated once when the function is defined, and is kept in an instance attribute: every {fi.cls.short} built without it shares that one object "
-                   f"(for a connection object: the abandoned connection's queued datagrams are consumed by the next connection's handlers)", loc(fi, d_))
-    ctx.floor("R8", "constructors inspected", n_init, 40)
+    no_shared_defaults(ctx, repo, "R8")
     shared_class_state(ctx, repo, "R8")
 
     # ---- R6 bounded growth --------------------------------------------------
@@ -453,6 +439,30 @@ def check(ctx):
 
 
 _MUTATORS = ("append", "add", "update", "extend", "pop", "clear", "setdefault", "remove", "insert", "popitem", "discard")
+
+
+def no_shared_defaults(ctx, repo, rule):
+    """no constructor keeps a mutable default argument in an instance attribute (evaluated once at definition: every
+    object built without it shares that one object)"""
+    n_init = 0
+    for fi in repo.all_functions():
+        if fi.name != "__init__" or fi.cls is None:
+            continue
+        n_init += 1
+        a = fi.node.args
+        pos = a.posonlyargs + a.args
+        pairs = list(zip(pos[len(pos) - len(a.defaults):], a.defaults)) + [(p_, d_) for p_, d_ in zip(a.kwonlyargs, a.kw_defaults) if d_ is not None]
+        for p_, d_ in pairs:
+            mutable = isinstance(d_, (ast.List, ast.Dict, ast.Set, ast.ListComp, ast.DictComp, ast.SetComp)) or \
+                (isinstance(d_, ast.Call) and not (isinstance(d_.func, ast.Name) and d_.func.id in ("tuple", "frozenset", "int", "str", "bytes", "float", "bool", "object")))
+            if not mutable:
+                continue
+            kept = [n for n in ast.walk(fi.node) if isinstance(n, (ast.Assign, ast.AnnAssign)) and isinstance(getattr(n, "value", None), ast.Name) and n.value.id == p_.arg
+                    and any(isinstance(t, ast.Attribute) and isinstance(t.value, ast.Name) and t.value.id == "self" for t in (n.targets if isinstance(n, ast.Assign) else [n.target]))]
+            ctx.ob(rule, f"{fi.qual}::{p_.arg}::no-shared-default", not kept,
+                   f"{fi.qual}: parameter `{p_.arg}` defaults to `{ast.unparse(d_)}`, evaluated once when the function is defined, and is kept in an instance attribute: every {fi.cls.short} built without it shares that one object "
+                   f"(for a connection object: the abandoned connection's queued datagrams are consumed by the next connection's handlers)", loc(fi, d_))
+    ctx.floor(rule, "constructors inspected", n_init, 40)
 
 
 def shared_class_state(ctx, repo, rule, only_under=None):
